@@ -93,6 +93,35 @@ fn playout(ctx: &mut Ctx, start: &Pos, explicit: Option<&[Mv]>, tape: Option<&mu
     check_node(ctx, &board, &prev, &|| mk_case(&played))?;
     let (mut saw_cap, mut saw_promo, mut saw_rights) = (false, false, false);
     for ply in 0..max_plies {
+        // now and then the turn is passed (a null move, written a1a1 in the move list): the passed
+        // position is a valid position too, and play continues from the board null_move returned
+        let null_mark = Mv::new(0, 0, None);
+        let want_null = match explicit {
+            Some(ms) => ms.get(ply) == Some(&null_mark),
+            None => fp(&(start, ply, "pass")) % 16 == 0,
+        };
+        if want_null {
+            match board.null_move() {
+                Some(nb) => {
+                    played.push(null_mark);
+                    ctx.set_case(mk_case(&played));
+                    let o = observe(&nb);
+                    ctx.eval();
+                    ctx.class("playout:null-move");
+                    let case = || mk_case(&played);
+                    check_node(ctx, &nb, &o, &case)?;
+                    check_edge(ctx, &prev, &o, &case)?;
+                    prev = o;
+                    board = nb;
+                    continue;
+                }
+                None => {
+                    if explicit.is_some() {
+                        break;
+                    }
+                }
+            }
+        }
         let moves = sorted_lib_moves(&board);
         if moves.is_empty() {
             ctx.class("playout:ended-terminal");
